@@ -30,7 +30,7 @@ ASSUMPTIONS = [
 ]
 COMPONENTS = {"real": ["pyxel outputs (create_output_directory, save_to_files, save_to_file, apply_run_number)", "run_mode for the three modes and the file entry point pyxel.run (filename table, output_filenames.csv)", "dask get_async", "numpy.save / astropy fits.writeto / PIL on a real scratch filesystem"], "stub": ["wall clock (SimDateTime)", "thread pool", "OSError injection wrappers"]}
 BUDGET = {"quick": {"n": 400, "wall": 110, "determinism": 4}, "thorough": {"n": 10000, "wall": 1600, "determinism": 12}}
-REQUIRED_REACH = ["bucket_in_several_entries", "via:file", "kind:exposure", "kind:obs-seq", "kind:obs-par", "same_second_starts", "clock_backwards", "prepopulated_dir", "concurrent_starts", "mkdir_lost_race", "fault:mkdir", "fault:write", "multi_key_mapping", "fmt:fits", "fmt:npy", "fmt:jpg"]
+REQUIRED_REACH = ["runs_with_identical_parameters", "seeded_observation", "bucket_in_several_entries", "via:file", "kind:exposure", "kind:obs-seq", "kind:obs-par", "same_second_starts", "clock_backwards", "prepopulated_dir", "concurrent_starts", "mkdir_lost_race", "fault:mkdir", "fault:write", "multi_key_mapping", "fmt:fits", "fmt:npy", "fmt:jpg"]
 
 BUCKETS = ("photon", "pixel", "signal", "image")
 
@@ -61,7 +61,17 @@ def gen_save(rng):
 
 
 def gen_start(rng):
-    return {"op": "start", "via": rng.choice(["api", "api", "file"]), "kind": rng.choice(["exposure", "exposure", "obs-seq", "obs-par"]), "save": gen_save(rng), "custom_dir": rng.choice(["", "", "cal_"]), "levels": rng.sample([2, 3, 5, 8], rng.randint(2, 3)), "fault": None, "sched": obs.gen_sched(rng, preemptive_ok=False)}
+    op = {"op": "start", "via": rng.choice(["api", "api", "file"]), "kind": rng.choice(["exposure", "exposure", "obs-seq", "obs-par"]), "save": gen_save(rng), "custom_dir": rng.choice(["", "", "cal_"]), "levels": rng.sample([2, 3, 5, 8], rng.randint(2, 3)), "fault": None, "sched": obs.gen_sched(rng, preemptive_ok=False)}
+    if op["kind"] != "exposure" and op["via"] == "api" and rng.random() < 0.4:
+        # sequential mode over two parameters whose value lists contain the configured defaults: several runs then have
+        # identical parameter values, and each of them still owns its files
+        op["obs_mode"] = "sequential"
+        op["levels"].insert(rng.randint(0, len(op["levels"])), 1)
+        op["temps"] = [None, rng.choice([5.0, 10.0])]  # None = the detector's configured temperature
+        rng.shuffle(op["temps"])
+    if op["kind"] != "exposure" and rng.random() < 0.4:
+        op["pipeline_seed"] = rng.randrange(1, 2**31)
+    return op
 
 
 def generate(rng, tier):
@@ -131,7 +141,12 @@ def world_for(scn, op, out_dir, level_default=1):
     if kind == "exposure":
         s["mode"] = {"kind": "exposure"}
     else:
-        s["mode"] = {"kind": "observation", "obs_mode": "product", "with_dask": kind == "obs-par", "parameters": [{"key": "pipeline.photon_collection.src.arguments.level", "values": op["levels"], "enabled": True}]}
+        s["mode"] = {"kind": "observation", "obs_mode": op.get("obs_mode", "product"), "with_dask": kind == "obs-par", "parameters": [{"key": "pipeline.photon_collection.src.arguments.level", "values": op["levels"], "enabled": True}]}
+        if op.get("temps"):
+            t0 = float(scn["detector"]["temperature"])
+            s["mode"]["parameters"].append({"key": "detector.environment.temperature", "values": [t0 if t is None else t0 + t for t in op["temps"]], "enabled": True})
+        if op.get("pipeline_seed"):
+            s["mode"]["pipeline_seed"] = op["pipeline_seed"]
     return s
 
 
@@ -345,6 +360,11 @@ def execute(scn, forced=None):
                     stats["kind:" + kind] = 1
                     feat = kind
                     s = world_for(scn, op, out_dir)
+                    if op.get("obs_mode") == "sequential":
+                        stats["runs_with_identical_parameters"] = 1
+                        feat = kind + "+sequential"
+                    if op.get("pipeline_seed"):
+                        stats["seeded_observation"] = 1
                     probes.reset()
                     fs = seams.FsSeam()
                     if op.get("fault"):
